@@ -443,7 +443,8 @@ Definition write_single (v : value) (raw : bytes) : rm tag :=
 Definition failed_fragments : resp := set_error resp_none fragments_failed.
 Definition receive_failed : text := T "failed to receive reply".
 
-(* LogixDriver._send_read_fragmented: one reply per iteration; no more replies = the socket fails *)
+(* LogixDriver._send_read_fragmented: one reply per iteration; no more replies = the socket fails.
+   The last iteration evaluates `response.error` (for logging) outside any try: it can raise. *)
 Fixpoint read_frag_loop (dec : rdecoder) (replies : list bytes) (acc : list fresp) : rm (resp * option value) :=
   match replies with
   | [] => RErr CommError receive_failed
@@ -453,10 +454,14 @@ Fixpoint read_frag_loop (dec : rdecoder) (replies : list bytes) (acc : list fres
       | ROk f =>
           let acc' := acc ++ [f] in
           if opt_is (r_service_status (f_r f)) INSUFFICIENT_PACKETS then read_frag_loop dec rest acc'
-          else if forallb (fun x => is_valid KUnit (f_r x)) acc' then
-                 let fin := frag_parse_value dec f (concat (map f_value_bytes acc')) in
-                 ROk (f_r fin, f_value fin)
-               else ROk (failed_fragments, None)
+          else match error KUnit (f_r f) with
+               | RErr e m => RErr e m
+               | ROk _ =>
+                   if forallb (fun x => is_valid KUnit (f_r x)) acc' then
+                     let fin := frag_parse_value dec f (concat (map f_value_bytes acc')) in
+                     ROk (f_r fin, f_value fin)
+                   else ROk (failed_fragments, None)
+               end
       end
   end.
 Definition read_fragmented (dec : rdecoder) (replies : list bytes) : rm tag :=
@@ -541,3 +546,124 @@ Definition generic_message (k : rkind) (dt : option decoder) (raw : bytes) : rm 
 (* CIPDriver._register_session: the session id, or None *)
 Definition register_session (raw : bytes) : option Z :=
   let r := parse_register raw in if is_valid KRegister r then r_session r else None.
+
+(* CIPDriver.open (socket creation/connect succeed): `_register_session() is None` -> False; every
+   exception is re-raised as CommError("failed to open a connection") *)
+Definition open_failed : text := T "failed to open a connection".
+Definition open_call (replies : list bytes) : rm bool :=
+  match replies with
+  | [] => RErr CommError open_failed
+  | raw :: _ => ROk (is_some (register_session raw))
+  end.
+
+(* CIPDriver._forward_open (session registered): generic_message(..., connected=False); `if response:` *)
+Definition forward_open (raw : bytes) : rm bool :=
+  match generic_message KRR None raw with
+  | RErr e m => RErr e m
+  | ROk t => ROk (tag_truthy t)
+  end.
+(* cip_driver.with_forward_open on a driver without a connection: an Extended Forward Open, then a
+   standard one; returns the replies that are left for the wrapped call *)
+Definition not_connected (fname : text) : text :=
+  T "Target did not connected. " ++ fname ++ T " will not be executed.".
+Definition with_forward_open (fname : text) (replies : list bytes) : rm (list bytes) :=
+  match replies with
+  | [] => RErr CommError receive_failed
+  | r1 :: rest =>
+      match forward_open r1 with
+      | RErr e m => RErr e m
+      | ROk true => ROk rest
+      | ROk false =>
+          match rest with
+          | [] => RErr CommError receive_failed
+          | r2 :: rest' =>
+              match forward_open r2 with
+              | RErr e m => RErr e m
+              | ROk true => ROk rest'
+              | ROk false => RErr ResponseError (not_connected fname)
+              end
+          end
+      end
+  end.
+
+(* ---------------------------------------------------------------- concrete decoders
+   (cip/data_types.py: elementary integer types and Array(_, elementary); packets/util.parse_read_reply
+   for an atomic tag).  They instantiate the decoder parameters for the correspondence. *)
+Inductive rty := RAtomic (t : ety) | RArray (t : ety).
+
+Fixpoint decode_n (t : ety) (whole : bytes) (n : nat) (rest : bytes) : rm (list Z) :=
+  match n with
+  | O => ROk []
+  | S n' => match decode_elem_stream t whole rest with
+            | RErr e m => RErr e m
+            | ROk (v, rest') => match decode_n t whole n' rest' with
+                                | RErr e m => RErr e m
+                                | ROk l => ROk (v :: l)
+                                end
+            end
+  end.
+(* data_type["data_type"]["attributes"] on an atomic tag: "DINT"["attributes"] *)
+Definition str_indices : text := T "string indices must be integers, not 'str'".
+Definition err_unpacking_into (name : text) (n : nat) (buf_repr : text) : text :=
+  T "Error unpacking into " ++ name ++ T "[" ++ print_int (Z.of_nat n) ++ T "] from " ++ buf_repr.
+Definition read_decoder (ty : rty) (elements : nat) : rdecoder := fun is_struct stream =>
+  match ty with
+  | RAtomic t =>
+      match decode_elem_stream t stream stream with
+      | RErr e m => RErr e m
+      | ROk (v, _) => if is_struct then RErr (Foreign TypeError) str_indices else ROk (VInt v)
+      end
+  | RArray t =>
+      match decode_n t stream elements stream with
+      | RErr BufferEmpty m => RErr BufferEmpty m
+      | RErr _ _ => RErr DataError (err_unpacking_into (ety_name t) elements (bytes_repr stream))
+      | ROk l => match l with
+                 | [v] => if (elements =? 1)%nat then ROk (VInt v) else ROk (VList l)
+                 | _ => ROk (VList l)
+                 end
+      end
+  end.
+(* DataType.decode(bytes) for generic_message(data_type=T) *)
+Definition elem_decoder (t : ety) : decoder := fun buf =>
+  match decode_elem t buf with RErr e m => RErr e m | ROk v => ROk (VInt v) end.
+
+(* ---------------------------------------------------------------- the public calls, as one function *)
+Inductive call :=
+  | CRead (dec : rdecoder)                     (* LogixDriver.read of one tag, plain Read Tag *)
+  | CReadFrag (dec : rdecoder)                 (* ... Read Tag Fragmented (one reply per fragment) *)
+  | CWrite (v : value)                         (* LogixDriver.write of one tag / one bit (read-modify-write) *)
+  | CWriteFrag (v : value) (n : nat)           (* ... Write Tag Fragmented in n segments *)
+  | CMulti (reqs : list sreq)                  (* read/write of >= 2 tags in one multi-service packet *)
+  | CGeneric (k : rkind) (dt : option decoder) (* CIPDriver.generic_message connected (KUnit) / unconnected (KRR) *)
+  | COpen                                      (* CIPDriver.open: register session *)
+  | CWithFO (fname : text) (c : call).         (* the call on a driver that still has to Forward Open *)
+
+Inductive out := OTags (l : list tag) | OBool (b : bool).
+
+Definition one_reply (replies : list bytes) (f : bytes -> rm tag) : rm out :=
+  match replies with
+  | [] => RErr CommError receive_failed
+  | raw :: _ => match f raw with RErr e m => RErr e m | ROk t => ROk (OTags [t]) end
+  end.
+Definition tags_out (r : rm (list tag)) : rm out :=
+  match r with RErr e m => RErr e m | ROk l => ROk (OTags l) end.
+Definition tag_out (r : rm tag) : rm out :=
+  match r with RErr e m => RErr e m | ROk t => ROk (OTags [t]) end.
+
+Fixpoint run_call (c : call) (replies : list bytes) : rm out :=
+  match c with
+  | CRead dec => one_reply replies (read_single dec)
+  | CReadFrag dec => tag_out (read_fragmented dec replies)
+  | CWrite v => one_reply replies (write_single v)
+  | CWriteFrag v n => tag_out (write_fragmented v n replies)
+  | CMulti reqs => match replies with
+                   | [] => RErr CommError receive_failed
+                   | raw :: _ => tags_out (rw_multi reqs raw)
+                   end
+  | CGeneric k dt => one_reply replies (generic_message k dt)
+  | COpen => match open_call replies with RErr e m => RErr e m | ROk b => ROk (OBool b) end
+  | CWithFO fname c' => match with_forward_open fname replies with
+                        | RErr e m => RErr e m
+                        | ROk rest => run_call c' rest
+                        end
+  end.
